@@ -1537,9 +1537,6 @@ pub fn create_simple_plan(
     for entry in builder.build() {
         let entry = entry?;
         let path = entry.path();
-        if !seen_files.insert(fs::canonicalize(path).unwrap_or_else(|_| path.to_path_buf())) {
-            continue;
-        }
         let relative_path = path.strip_prefix(&root).unwrap_or(path);
 
         // Skip if doesn't match includes or matches excludes
@@ -1556,6 +1553,9 @@ pub fn create_simple_plan(
 
         // Only process regular files (lstat type: symlinks are never followed)
         if !entry.file_type().is_some_and(|t| t.is_file()) {
+            continue;
+        }
+        if !seen_files.insert(fs::canonicalize(path).unwrap_or_else(|_| path.to_path_buf())) {
             continue;
         }
 
